@@ -280,3 +280,10 @@ def run(chk):
     from . import e2e
     chk.guard("R02.7", "e2e", e2e.check, chk, F, "R02.7", "complete",
               "end to end on a bounded family (~60 scripts x every subset of their keys x preimage sets x locks met or not): whenever a canonical satisfaction exists with the owned assets and met locks, the malleable satisfier returns a satisfaction, and so does the non-malleable one for scripts typed non-malleable")
+    # the planner finds a key among the caller's Assets by is_key_direct_child_of: a wrong refusal there reports a
+    # spendable output as unspendable (rule shared with C17)
+    from ..report import RuleAlias
+    from . import c17
+    chk.guard("R02.8", "asset-key-matching", c17.check_key_source_table,
+              RuleAlias(chk, {"R17.6": "R02.8"}, "Assets key matching: a key source signs for exactly its own path and its direct "
+                                                 "children (exhaustive table on short paths; rule shared with C17)"), F)
